@@ -118,6 +118,9 @@ void ThreePointsNumericalDerivative::updateDerivatives(const ParameterList& para
         }
       }
 
+      if (hf1 == 0)
+        function_->setParameters(parameters); // no probe was possible: go back to the requested point before probing the next variable
+
       if (hf3 == 0)
       {
         der1_[i] = log(-1);
